@@ -139,6 +139,8 @@ def comp_of(st, v, B=None):
         return CTuple([comp_of(st, x) for x in v.items])
     if isinstance(v, VIte):
         return CIte(v.c, comp_of(st, v.a), comp_of(st, v.b))
+    if isinstance(v, core.VRec):
+        return CRec({k: comp_of(st, x) for k, x in v.items.items()})
     if isinstance(v, VKey):
         return COpq(v.t, "key")
     if isinstance(v, VOpq):
@@ -183,6 +185,11 @@ def comp_of(st, v, B=None):
     raise Unsupported(f"abstraction of {v!r}")
 
 
+class CRec(Comp):
+    def __init__(self, items):
+        self.items = items
+
+
 class CInst(Comp):
     def __init__(self, cls, fields, oid=None):
         self.cls, self.fields, self.oid = cls, fields, oid
@@ -214,6 +221,10 @@ def content_eq(st, a, b, name="eq"):
         if len(a.items) != len(b.items):
             return z3.BoolVal(False)
         return z3.And([content_eq(st, x, y, name) for x, y in zip(a.items, b.items)] or [z3.BoolVal(True)])
+    if isinstance(a, CRec) and isinstance(b, CRec):
+        if set(a.items) != set(b.items):
+            return z3.BoolVal(False)
+        return z3.And([content_eq(st, a.items[k], b.items[k], name) for k in a.items] or [z3.BoolVal(True)])
     if isinstance(a, CFcn) and isinstance(b, CFcn):
         return z3.And(content_eq(st, a.expr, b.expr, name), content_eq(st, a.name, b.name, name))
     if isinstance(a, CFam) and isinstance(b, CFam):
